@@ -165,6 +165,42 @@ pub fn exec_run_opt(script: &RunScript, keep_log: bool, keep_text: bool, watchdo
             slots[*to] = c;
           }
         }
+        Op::HDay { from, to } => {
+          // a LunarDay taken out of a LunarHour: carries whatever the hour has memoised so far
+          let d = match &slots[*from] {
+            Some(Handle::H(h)) => Some(Handle::D(h.get_lunar_day())),
+            _ => None,
+          };
+          if d.is_some() {
+            slots[*to] = d;
+          }
+        }
+        Op::HHour { from, to, k } => {
+          // one of the double-hours listed by a LunarDay
+          let mut made: Option<Handle> = None;
+          if let Some(Handle::D(d)) = &slots[*from] {
+            let base = handle_key_base(&Handle::D(d.clone()));
+            let s0 = next_seq();
+            let kk = *k;
+            let out = run_guarded(|| {
+              let mut hours = d.get_hours();
+              if kk >= hours.len() {
+                return Err("no such hour".to_string());
+              }
+              let h = hours.swap_remove(kk);
+              let r = r_lh(&h);
+              made = Some(Handle::H(h));
+              Ok(r)
+            });
+            let s1 = next_seq();
+            let mut key_args = base.clone();
+            key_args.push(kk as i64);
+            ev2.lock().unwrap().push(EvalRec { tid: tid as u8, op: idx as u16, key: key_of("LD.hour", &key_args), class: out.class(), digest: out.digest(), text: clip(out.text(), keep_text), from_handle: true, rnew: None, seq: (s0, s1) });
+          }
+          if made.is_some() {
+            slots[*to] = made;
+          }
+        }
         Op::HGet { slot, g } => {
           if let Some(h) = &slots[*slot] {
             let mut base = handle_key_base(h);
